@@ -31,6 +31,23 @@ func genOutageHist(t *rapid.T, files, bad bool) Hist {
 		}
 		return uu
 	}
+	if bad {
+		// a final report whose refund cannot be made (the account function is unreachable), then - everything works
+		// again - a request for the reference that has just been released
+		add(Op{K: "update", S: 1, Sess: 1, UUs: []UU{{RG: 2, Req: 50, Conts: []Cont{{Q: "online", Pm: 0}}}}})
+		add(Op{K: "peers", S: 0, Name: "abmf-down"})
+		add(Op{K: "release", S: 1, Sess: 1, Trig: "FINAL", UUs: []UU{{RG: 2, Req: 0, Conts: []Cont{{Q: "online", Pm: 100}}}}})
+		add(Op{K: "peers", S: 0, Name: "up"})
+		add(Op{K: "bad", S: 1, Bad: "stale-ref", UUs: []UU{{RG: 2, Req: 10, Conts: []Cont{{Q: "online", Tot: 1, Pm: -1}}}}})
+		add(Op{K: "create", S: 1, Name: "smf2", UUs: []UU{{RG: 2, Req: 50}}})
+	}
+	if files {
+		// a one-time event while the subscriber's file cannot be written, then an ordinary request
+		add(Op{K: "blockfile", S: 0})
+		add(Op{K: "event", S: 0, UUs: []UU{{RG: 3, Req: 0, Conts: []Cont{{Q: "offline", Tot: 7, Pm: -1}}}}})
+		add(Op{K: "unblockfile", S: 0})
+		add(Op{K: "update", S: 0, Sess: 0, UUs: []UU{{RG: 1, Req: 100, Conts: []Cont{{Q: "online", Pm: 500}}}}})
+	}
 	down, blocked := false, map[int]bool{}
 	n := rapid.IntRange(10, h.Scale(22, 40)).Draw(t, "steps")
 	for i := 0; i < n; i++ {
@@ -128,7 +145,7 @@ func judgeOutage(strict5xx bool) func(Hist) *h.Verdict {
 			if res.Status == statusHung {
 				return v.Failf("request-never-returns/"+op.K, "step %d of %d (%s, subscriber %d, %s): %s", step, len(hst.Ops), op.K, op.S, during, res.Body)
 			}
-			if op.K != "create" && op.K != "update" && op.K != "release" && op.K != "recharge" {
+			if op.K != "create" && op.K != "update" && op.K != "release" && op.K != "recharge" && op.K != "event" {
 				continue
 			}
 			if len(res.Panics) > 0 && !st.fileBlocked {
@@ -141,7 +158,7 @@ func judgeOutage(strict5xx bool) func(Hist) *h.Verdict {
 				}
 				continue
 			}
-			want := map[string]int{"create": 201, "update": 200, "release": 204, "recharge": 204}[op.K]
+			want := map[string]int{"create": 201, "event": 201, "update": 200, "release": 204, "recharge": 204}[op.K]
 			if res.Status != want {
 				return v.Failf("session-unusable-after-outage/"+op.K, "step %d (everything works again): %s for subscriber %d answered %d %.300s, want %d; the session was created earlier and never released", step, op.K, op.S, res.Status, res.Body, want)
 			}
